@@ -26,12 +26,12 @@ DecideCallback(a) ==
 Ev(op, a) == [op |-> op, args |-> a, out |-> IF op = "StartLogin" THEN DecideStart(a) ELSE DecideCallback(a)]
 Do(e) == Apply(e) /\ rviol' = rviol \cup {<<r, e.op>> : r \in Check(e)} /\ steps' = steps + 1 /\ UNCHANGED cfg
 
-StartLogin(b) == nAtt < MaxAttempts /\ Do(Ev("StartLogin", [b |-> b]))
+StartLogin(b, q) == nAtt < MaxAttempts /\ Do(Ev("StartLogin", [b |-> b, q |-> q]))
 Callback(b, att, form, tamper, err, m) == Do(Ev("Callback", [b |-> b, att |-> att, form |-> form, tamper |-> tamper, err |-> err, method |-> m]))
 
 Cfgs == [pkce : BOOLEAN, via : {"oauth", "oidc"}, disc : {"s256", "none", "plainOnly"}]
 Init == RInit0 /\ cfg \in Cfgs /\ steps = 0
-Next == steps < MaxSteps /\ (\/ \E b \in Browsers : StartLogin(b)
+Next == steps < MaxSteps /\ (\/ \E b \in Browsers, q \in LoginQueries : StartLogin(b, q)
                              \/ \E b \in Browsers, att \in Attempts \cup {"t0"}, f \in Forms, t \in Tampers, er \in BOOLEAN, m \in Methods : Callback(b, att, f, t, er, m))
 Spec == Init /\ [][Next]_dvars
 NoViolation == rviol = {}
